@@ -520,13 +520,49 @@ func abstractOf(t *rapid.T, v spec.V, allowDyn bool, kinds *[]string) spec.V {
 	}
 	r := &spec.Ref{}
 	if v.St == spec.Null {
-		// only nullness can be stated for a null
-		if rapid.Bool().Draw(t, "sayNull") {
+		// A null is admitted by "is null" and by ANY type-specific refinement
+		// that does not also say not-null: bounds, prefixes and lengths
+		// constrain the value only "if it turns out not to be null"
+		// (docs/refinements.md), so they may be arbitrary here.
+		switch rapid.IntRange(0, 3).Draw(t, "nullkind") {
+		case 0:
 			r.Null = "null"
 			add("ref-null")
 			u.Ref = r
-		} else {
+		case 1:
 			add("unrefined")
+		default:
+			switch {
+			case ty.K == spec.KNumber:
+				lo := rapid.IntRange(-3, 8).Draw(t, "nlo")
+				hi := lo + rapid.IntRange(0, 3).Draw(t, "nspan")
+				if rapid.IntRange(0, 3).Draw(t, "haslo") != 0 {
+					n := spec.NInt(int64(lo))
+					r.Lo, r.LoInc = &n, true
+				}
+				if rapid.IntRange(0, 3).Draw(t, "hashi") != 0 {
+					n := spec.NInt(int64(hi))
+					r.Hi, r.HiInc = &n, true
+				}
+			case ty.K == spec.KString:
+				p := rapid.SampledFrom([]string{"a", "b", "foo", "https://"}).Draw(t, "npfx")
+				r.Prefix, r.PrefixFull = &p, true
+			case ty.IsColl():
+				lo := rapid.IntRange(0, 4).Draw(t, "nminlen")
+				hi := lo + rapid.IntRange(0, 2).Draw(t, "nlenspan")
+				if rapid.IntRange(0, 3).Draw(t, "hasminlen") != 0 {
+					r.MinLen = &lo
+				}
+				if rapid.IntRange(0, 3).Draw(t, "hasmaxlen") != 0 {
+					r.MaxLen = &hi
+				}
+			}
+			if *r != (spec.Ref{}) {
+				u.Ref = r
+				add("null-under-bounds")
+			} else {
+				add("unrefined")
+			}
 		}
 		return u
 	}
